@@ -340,7 +340,14 @@ impl Property for C08 {
                         let mut prog: Vec<u8> = vec![0xF3];
                         for _ in 0..400 {
                             let off = rng.below(6911) as u16;
-                            let a = base + off;
+                            // mostly inside the display file; now and then the word straddles its start (low byte in
+                            // the window below, high byte on the first display byte), or the store goes to the ROM
+                            // address with the same offset (nothing of the display changes then)
+                            let a = match rng.below(12) {
+                                0 => base.wrapping_sub(1),
+                                1 => off,
+                                _ => base + off,
+                            };
                             let w = rng.u16();
                             match rng.below(4) {
                                 0 => prog.extend_from_slice(&[0x21, w as u8, (w >> 8) as u8, 0x22, a as u8, (a >> 8) as u8]),
